@@ -786,6 +786,35 @@ fn main() {
         ce_sets.extend(exhaustive(4, 4));
         ce_sets.extend(exhaustive(5, 2));
     }
+    // corpus first
+    let mut corpus_sets: Vec<Vec<OpSpec>> = vec![];
+    if let Ok(rd) = std::fs::read_dir("/verif/corpus/C03") {
+        let mut files: Vec<_> = rd.filter_map(|e| e.ok()).map(|e| e.path()).collect();
+        files.sort();
+        for f in files {
+            if f.extension().map(|e| e == "ops").unwrap_or(false) {
+                for line in std::fs::read_to_string(&f).unwrap_or_default().lines() {
+                    let line = line.strip_prefix("request: ").unwrap_or(line);
+                    if let Some(rest) = line.strip_prefix("ce ") {
+                        let toks: Vec<&str> = rest.split(' ').collect();
+                        let mut ops = vec![];
+                        let mut i = 1;
+                        while i + 1 < toks.len() + 1 && i < toks.len() {
+                            if let Some(o) = parse_op_token(toks[i]) {
+                                ops.push(o);
+                            }
+                            i += 2;
+                        }
+                        if !ops.is_empty() {
+                            corpus_sets.push(ops);
+                        }
+                    }
+                }
+            }
+        }
+    }
+    rep.arm_n("corpus cases", corpus_sets.len() as u64);
+    ce_sets.splice(0..0, corpus_sets);
     let n_random_ce = if thorough { 200_000 } else { 12_000 };
     for i in 0..n_random_ce {
         let n = 1 + rng.below(12) as usize;
@@ -990,6 +1019,84 @@ fn main() {
     }
     rep.notes.push(format!("real-builtin chains that evaluated to a value (informative): {}", informative));
 
+    // ---- 4b. LvalueChainEvaluator: destructuring chains over `.+` (right-assoc) and `+.` ----------------
+    {
+        let n_lv = if thorough { 4000 } else { 400 };
+        let mut reqs = vec![];
+        let mut cases = vec![];
+        for ci in 0..n_lv {
+            let n = 1 + rng.below(5) as usize;
+            let ops: Vec<String> = (0..n).map(|_| rng.pick(&[".+", "+.", ".+", "+.", ".+", "+.", "=>"]).to_string()).collect();
+            let vars: Vec<String> = (0..=n).map(|i| format!("dv{}x{}", ci, i)).collect();
+            // nested lists, so that an element can itself be taken apart by a nested pattern
+            let len = 1 + rng.below(n as u64 + 3) as usize;
+            let rhs = format!(
+                "[{}]",
+                (1..=len)
+                    .map(|k| format!("[[{}1,{}2,{}3],[{}4,{}5],[{}6]]", k, k, k, k, k, k))
+                    .collect::<Vec<_>>()
+                    .join(",")
+            );
+            let mut t = vec!["real 0".to_string()];
+            for (i, o) in ops.iter().enumerate() {
+                t.push(o.clone());
+                t.push((i + 1).to_string());
+            }
+            reqs.push(t.join(" "));
+            cases.push((ops, vars, rhs));
+        }
+        let resp = run_driver(&args.driver, &reqs);
+        fn lv_render(sexp: &str, vars: &[String]) -> Option<String> {
+            let spaced = sexp.replace('(', " ( ").replace(')', " ) ");
+            let toks: Vec<&str> = spaced.split_whitespace().collect();
+            fn go(t: &[&str], i: &mut usize, vars: &[String]) -> Option<String> {
+                let tok = *t.get(*i)?;
+                *i += 1;
+                if tok == "(" {
+                    let name = *t.get(*i)?;
+                    *i += 1;
+                    let mut a = vec![];
+                    while *i < t.len() && t[*i] != ")" {
+                        a.push(go(t, i, vars)?);
+                    }
+                    *i += 1;
+                    Some(format!("({})({})", name, a.join(", ")))
+                } else {
+                    vars.get(tok.strip_prefix('#')?.parse::<usize>().ok()?).cloned()
+                }
+            }
+            let mut i = 0;
+            go(&toks, &mut i, vars)
+        }
+        for (k, ((ops, vars, rhs), r)) in cases.iter().zip(resp.iter()).enumerate() {
+            let parts: Vec<&str> = r.split('\t').collect();
+            let mut infix = vars[0].clone();
+            for (i, o) in ops.iter().enumerate() {
+                infix.push_str(&format!(" {} {}", o, vars[i + 1]));
+            }
+            let show = format!("[{}]", vars.join(", "));
+            let src = format!("{} := {}; {}", infix, rhs, show);
+            rep.case(&format!("lvalue: {}", src), ops.len() >= 2);
+            rep.arm(&format!("lvalue:n={}", ops.len()));
+            if parts.len() < 2 || !parts[0].starts_with("ok ") || !parts[1].starts_with("ok ") {
+                rep.judge("lvalue:driver", &format!("src: {}\nrequest: {}", src, reqs[k]), "?", r, r);
+                continue;
+            }
+            let rust_o = ri.eval(&src).class();
+            // the call-form patterns declare the same names again: evaluate each in its own scope
+            let eval_tree = |sexp: &str| -> String {
+                match lv_render(sexp, vars) {
+                    Some(pat) => Interp::new().eval(&format!("{} := {}; {}", pat, rhs, show)).class(),
+                    None => format!("unrenderable {}", sexp),
+                }
+            };
+            let im = eval_tree(&parts[0][3..]);
+            let sp = if parts[1] == parts[0] { im.clone() } else { eval_tree(&parts[1][3..]) };
+            rep.outcome(if rust_o.starts_with("ok") { "lvalue:ok" } else { "lvalue:throw" });
+            rep.judge("lvalue", &format!("src: {}\nrequest: {}\npredicted tree: {}", src, reqs[k], parts[1]), &rust_o, &im, &sp);
+        }
+    }
+
     // ---- 5. generated tables against the running interpreter -------------------------------------------
     {
         let names_line = run_driver(&args.driver, &["names".to_string()]);
@@ -1001,7 +1108,7 @@ fn main() {
         for (n, r) in names.iter().zip(resp.iter()) {
             table_names.insert(n.clone());
             let parts: Vec<&str> = r.split('\t').collect();
-            let model = if parts.len() == 3 { format!("{} {}", parts[0], parts[2]) } else { r.clone() };
+            let (model, specm) = if parts.len() == 3 { (parts[0].to_string(), parts[1].to_string()) } else { (r.clone(), r.clone()) };
             let real = match env.vars.get(n) {
                 Some((_, cell)) => match &*cell.borrow() {
                     Obj::Func(Func::Builtin(_), Precedence(p, a)) => format!(
@@ -1017,7 +1124,7 @@ fn main() {
                 None => "unbound".to_string(),
             };
             rep.case(&format!("prec {}", n), false);
-            rep.judge(&format!("table:{}", n), &format!("precedence/associativity of builtin {}\nrequest: prec {}", n, n), &real, &model, &model);
+            rep.judge(&format!("table:{}", n), &format!("precedence/associativity of builtin {}\nrequest: prec {}", n, n), &real, &model, &specm);
         }
         // completeness: every builtin function bound in a fresh environment is in the table
         let mut missing: Vec<String> = env
